@@ -140,7 +140,7 @@ _pairs = PAIRS_ALL if os.environ.get("PYVC_TIER") == "thorough" else PAIRS_QUICK
 @unit("C15", "Loader.load.history", targets=["osyris.io.loader:Loader.load", AMR + ":AmrReader.initialize",
                                              "osyris.io.hydro:HydroReader.initialize", "osyris.io.part:PartReader.initialize",
                                              "osyris.io.reader:Reader.descriptor_to_variables"],
-      uses=["hilbert_cpu_list@amr", "_binary_op", "Array.to", "Array._wrap_numpy"],
+      uses=["hilbert_cpu_list@amr", "_binary_op", "Array.to"],
       cases=[{"label": "%s_then_%s" % (a, b), "first": a, "second": b} for a, b in _pairs],
       replay=NIO.replay_history, max_paths=128)
 def history(case):
